@@ -438,13 +438,14 @@ where
                             &mut node_deduplicator,
                             *error_observer_id,
                         );
-                        if let Some(previous_index) = previous_index {
-                            call_graph.update_edge(
-                                previous_index,
-                                error_observer_node_index,
-                                CallGraphEdgeMetadata::HappensBefore,
-                            );
-                        }
+                        // Error observers are invoked after the error handler, in registration order:
+                        // the first one comes after the handler, each of the others after the previous one.
+                        // The borrow checker must know: an observer may borrow what the handler moves.
+                        call_graph.update_edge(
+                            previous_index.unwrap_or(node_index),
+                            error_observer_node_index,
+                            CallGraphEdgeMetadata::HappensBefore,
+                        );
                         call_graph.update_edge(
                             pavex_error_new_node_index,
                             error_observer_node_index,
